@@ -77,6 +77,7 @@ type ServerCfg struct {
 	CorsKind  int  `json:"corskind"`  // with cors: 0 WithCors(), 1 WithCorsHeaders, 2 WithCustomCors(nil, nil)
 	Files     bool `json:"files"`     // rest.WithFileServer("/static", a file system without files)
 	Extras    bool `json:"extras"`    // WithUnauthorizedCallback, WithUnsignedCallback, WithTLSConfig, Verbose
+	Scribble  bool `json:"scribble"`  // the caller overwrites the slice Server.Routes() returned, before Start
 }
 
 type noFiles struct{}
@@ -139,7 +140,16 @@ func tagMW(tag int) rest.Middleware {
 		return func(w http.ResponseWriter, r *http.Request) {
 			old, _ := r.Context().Value(mwKey{}).([]int)
 			tags := append(append([]int{}, old...), tag)
+			// every middleware of the route's chain sees the path variables of the request too:
+			// read them on the way in and on the way out
+			c, _ := r.Context().Value(ctlKey{}).(*reqCtl)
+			if c != nil && !c.scrib {
+				c.addLate(sortedVars(pathvar.Vars(r)))
+			}
 			next(w, r.WithContext(context.WithValue(r.Context(), mwKey{}, tags)))
+			if c != nil && !c.scrib {
+				c.addLate(sortedVars(pathvar.Vars(r)))
+			}
 		}
 	}
 }
@@ -169,6 +179,9 @@ type reqCtl struct {
 	ref     map[string]string // the very map pathvar.Vars returned to the handler
 	late    [][][2]string
 	gate    chan struct{} // the handler parks here after its first read (nil: does not park)
+	pre     bool          // ... before its first read instead
+	do      string        // what the handler itself answers: "" (nothing), 201, 404, 405, 500, panic
+	scrib   bool          // the handler writes into the vars map it was given (its own business)
 	entered chan struct{} // closed when the handler has done its first read
 	done    chan struct{} // closed when the handler returns
 }
@@ -186,6 +199,12 @@ func sortedVars(m map[string]string) [][2]string {
 	return out
 }
 
+func (c *reqCtl) addLate(v [][2]string) {
+	c.mu.Lock()
+	c.late = append(c.late, v)
+	c.mu.Unlock()
+}
+
 func ctlOf(r *http.Request) *reqCtl {
 	c, _ := r.Context().Value(ctlKey{}).(*reqCtl)
 	if c == nil {
@@ -197,6 +216,16 @@ func ctlOf(r *http.Request) *reqCtl {
 func (st *state) handler(i int) http.HandlerFunc {
 	return func(w http.ResponseWriter, r *http.Request) {
 		c := ctlOf(r)
+		if c.pre && c.gate != nil {
+			// parked before it has looked at anything: the route timeout answers, others are served
+			c.mu.Lock()
+			dup := len(c.runs) > 0
+			c.mu.Unlock()
+			if !dup {
+				close(c.entered)
+				<-c.gate
+			}
+		}
 		ref := pathvar.Vars(r)
 		vars := map[string]string{}
 		for k, v := range ref {
@@ -214,14 +243,33 @@ func (st *state) handler(i int) http.HandlerFunc {
 			return
 		}
 		defer close(c.done)
-		close(c.entered)
-		if c.gate != nil {
+		if !c.pre || c.gate == nil {
+			close(c.entered)
+		}
+		if c.gate != nil && !c.pre {
 			<-c.gate
 			// the handler comes back from its slow call and looks at its path variables again
-			again := sortedVars(pathvar.Vars(r))
-			c.mu.Lock()
-			c.late = append(c.late, again)
-			c.mu.Unlock()
+			c.addLate(sortedVars(pathvar.Vars(r)))
+		}
+		if c.scrib && len(ref) > 0 {
+			for k := range ref {
+				delete(ref, k)
+				break
+			}
+			ref["c09-scribble"] = "x"
+		}
+		switch c.do {
+		case "201":
+			w.WriteHeader(http.StatusCreated)
+		case "404":
+			http.NotFound(w, r)
+		case "405":
+			w.Header().Set("Allow", "C09")
+			w.WriteHeader(http.StatusMethodNotAllowed)
+		case "500":
+			w.WriteHeader(http.StatusInternalServerError)
+		case "panic":
+			panic("c09 handler panics")
 		}
 	}
 }
@@ -487,6 +535,12 @@ func buildServers(c Case, st *state, out *Out) []http.Handler {
 				srv.AddRoutes(rs, ro...)
 			}
 		case "start":
+			if c.Servers[ev.Server].Scribble {
+				rs := srv.Routes() // the caller's copy: writing into it is the caller's business
+				for i := range rs {
+					rs[i].Method, rs[i].Path, rs[i].Handler = "BAD", "scribbled", nil
+				}
+			}
 			if out.Starts[ev.Server] == -1 {
 				handlers[ev.Server], out.Starts[ev.Server] = startServer(srv)
 			}
@@ -535,6 +589,7 @@ func runCase(c Case, token string) (out Out) {
 	out.Res = []Res{}
 	st := &state{}
 	var handlers []http.Handler
+	registerUpTo := func(int) {}
 	server := c.Kind == "server"
 	if server {
 		func() {
@@ -560,18 +615,22 @@ func runCase(c Case, token string) (out Out) {
 		if c.NA {
 			prt.SetNotAllowedHandler(st.notAllowed())
 		}
-		for i, rg := range c.Regs {
-			var err error
-			func() {
-				defer func() {
-					if p := recover(); p != nil {
-						err = fmt.Errorf("panic: %v", p)
-					}
+		registered := 0
+		registerUpTo = func(k int) {
+			for ; registered < k && registered < len(c.Regs); registered++ {
+				rg := c.Regs[registered]
+				var err error
+				func() {
+					defer func() {
+						if p := recover(); p != nil {
+							err = fmt.Errorf("panic: %v", p)
+						}
+					}()
+					err = prt.Handle(rg[0], rg[1], st.handler(registered))
 				}()
-				err = prt.Handle(rg[0], rg[1], st.handler(i))
-			}()
-			out.RegErr = append(out.RegErr, regErr(err))
-			out.PClean = append(out.PClean, path.Clean(rg[1]))
+				out.RegErr = append(out.RegErr, regErr(err))
+				out.PClean = append(out.PClean, path.Clean(rg[1]))
+			}
 		}
 	}
 	type flight struct {
@@ -584,8 +643,34 @@ func runCase(c Case, token string) (out Out) {
 		panicked bool
 		returned chan struct{}
 	}
+	flagOf := func(rq []string) string {
+		n := 3
+		if server {
+			n = 4
+		}
+		if len(rq) > n {
+			return rq[n]
+		}
+		return ""
+	}
+	hasTok := func(flag, pfx string) string {
+		for _, tok := range strings.Split(flag, "+") {
+			if strings.HasPrefix(tok, pfx) {
+				return tok
+			}
+		}
+		return ""
+	}
 	prepare := func(rq []string, gate chan struct{}) *flight {
+		orig := rq
 		f := &flight{returned: make(chan struct{})}
+		if a := hasTok(flagOf(orig), "after="); a != "" {
+			k := 0
+			fmt.Sscanf(a, "after=%d", &k)
+			registerUpTo(k)
+		} else {
+			registerUpTo(len(c.Regs))
+		}
 		if server {
 			fmt.Sscanf(rq[0], "%d", &f.si)
 			rq = rq[1:]
@@ -615,6 +700,16 @@ func runCase(c Case, token string) (out Out) {
 		f.res.Path = req.URL.Path
 		f.res.Clean = path.Clean(req.URL.Path)
 		f.ctl = &reqCtl{gate: gate, entered: make(chan struct{}), done: make(chan struct{})}
+		for _, tok := range strings.Split(flagOf(orig), "+") {
+			switch {
+			case tok == "pre":
+				f.ctl.pre = true
+			case tok == "scrib":
+				f.ctl.scrib = true
+			case strings.HasPrefix(tok, "do="):
+				f.ctl.do = tok[3:]
+			}
+		}
 		f.ctl.req = req.WithContext(context.WithValue(req.Context(), ctlKey{}, f.ctl))
 		f.w = httptest.NewRecorder()
 		return f
@@ -654,6 +749,11 @@ func runCase(c Case, token string) (out Out) {
 		// with the timeout middleware in the chain a dispatched request may be answered 503 when the
 		// route timeout fires before the handler returns: the handler ran all the same
 		timedOut := server && c.Servers[f.si].Native && w.Code == http.StatusServiceUnavailable
+		if f.panicked && f.ctl.do == "panic" && len(runs) == 1 {
+			// nothing in this chain recovers: the handler's own panic reaches the caller of ServeHTTP
+			f.panicked = false
+			w.Code = 500
+		}
 		switch {
 		case f.panicked:
 			res.K = "panic"
@@ -662,6 +762,18 @@ func runCase(c Case, token string) (out Out) {
 			res.Note = "CORS headers do not match the option"
 		case len(runs) == 0 && custom == "" && cors && w.Code == 204 && !hasAllow:
 			res.K = "cors204"
+		case len(runs) == 1 && f.ctl.do != "" && custom == "" && !timedOut:
+			// the handler answered itself: whatever it says is its answer, the router must not reinterpret it
+			want := map[string]int{"201": 201, "404": 404, "405": 405, "500": 500, "panic": 500}[f.ctl.do]
+			if w.Code == want && hasAllow == (f.ctl.do == "405") {
+				res.K = "h"
+				res.H = runs[0].h
+				res.MWs = append(res.MWs, runs[0].mws...)
+				res.Vars = sortedVars(runs[0].vars)
+			} else {
+				res.K = "other"
+				res.Note = fmt.Sprintf("handler answered %s, client saw status=%d allow=%v", f.ctl.do, w.Code, allow)
+			}
 		case len(runs) == 1 && custom == "" && !hasAllow && (w.Code == 200 || timedOut):
 			res.K = "h"
 			res.H = runs[0].h
@@ -685,27 +797,18 @@ func runCase(c Case, token string) (out Out) {
 			res.Note = fmt.Sprintf("runs=%d custom=%q status=%d allow=%v", len(runs), custom, w.Code, allow)
 		}
 	}
-	flagOf := func(rq []string) string {
-		n := 3
-		if server {
-			n = 4
-		}
-		if len(rq) > n {
-			return rq[n]
-		}
-		return ""
-	}
 	var flights []*flight
 	var parked []*flight // handlers still parked although their request has been answered
 	for i := 0; i < len(c.Reqs); i++ {
-		flag := flagOf(c.Reqs[i])
+		flag := hasTok(flagOf(c.Reqs[i]), "c")
+		hold := hasTok(flagOf(c.Reqs[i]), "hold") != ""
 		switch {
-		case strings.HasPrefix(flag, "c"):
+		case flag != "":
 			// a batch of concurrent requests: every handler reads its variables, waits until all
 			// requests of the batch are inside their handler (or answered), and reads them again
 			gate := make(chan struct{})
 			var batch []*flight
-			for i < len(c.Reqs) && flagOf(c.Reqs[i]) == flag {
+			for i < len(c.Reqs) && hasTok(flagOf(c.Reqs[i]), "c") == flag {
 				batch = append(batch, prepare(c.Reqs[i], gate))
 				i++
 			}
@@ -731,7 +834,7 @@ func runCase(c Case, token string) (out Out) {
 				classify(f)
 			}
 			flights = append(flights, batch...)
-		case flag == "hold":
+		case hold:
 			// the handler parks after its first read; rest's timeout middleware answers for it
 			f := prepare(c.Reqs[i], make(chan struct{}))
 			if !f.skip {
@@ -754,7 +857,9 @@ func runCase(c Case, token string) (out Out) {
 				default:
 					close(f.ctl.gate) // never dispatched: nobody waits
 				}
-				classify(f)
+				if !f.res.Held {
+					classify(f)
+				}
 			}
 			flights = append(flights, f)
 		default:
@@ -766,11 +871,13 @@ func runCase(c Case, token string) (out Out) {
 			flights = append(flights, f)
 		}
 	}
+	registerUpTo(len(c.Regs))
 	// the slow handlers come back
 	for _, f := range parked {
 		close(f.ctl.gate)
 		select {
 		case <-f.ctl.done:
+			classify(f)
 		case <-time.After(10 * time.Second):
 			f.res.K = "other"
 			f.res.Note = "parked handler did not finish"
@@ -778,7 +885,7 @@ func runCase(c Case, token string) (out Out) {
 	}
 	// after everything else was served: what do the variables of each dispatched request look like now
 	for _, f := range flights {
-		if f.skip || f.res.K != "h" {
+		if f.skip || f.res.K != "h" || f.ctl.scrib {
 			out.Res = append(out.Res, f.res)
 			continue
 		}
